@@ -860,6 +860,7 @@ CFGS = {
                                  "--nodebump"]},
     "ajj-net": {"item": "1AJJ.pdb", "window": [10, 10], "input_mode": "pdbid",
                 "pdbid": "1AJJ", "argv": ["--ff=SWANSON", "--ffout=CHARMM", "--drop-water"]},
+    "fas-cif": {"item": "1FAS.cif", "argv": ["--ff=PARSE", "--whitespace"]},
     "bx8-damaged-tyl06": {"item": "1BX8.pdb", "window": [20, 14],
                           "damage": [[3, "drop_tail"], [8, "drop_atom:CG"]],
                           "argv": ["--ff=TYL06", "--apbs-input={apbsout}"]},
